@@ -3,4 +3,5 @@ Require Extraction.
 Require Import ExtrOcamlBasic.
 From Verif.C15 Require Import ModelBase Extracted Model.
 Extraction "model_ml.ml" dr_call lower mutating allowed next_ao mk_state mk_op run_op all_entries
-  dominates hotcold_shape dry_complete has_dry entry_facts z_keep config_step config_set_before_save config_cold_before_hot.
+  dominates hotcold_shape dry_complete has_dry entry_facts z_keep config_step config_set_before_save config_restricts_on_failure config_cold_before_hot
+  ix_run indexer_save_needs_packs indexer_max_count.
